@@ -24,16 +24,17 @@ processor:
   (token roundings and the price spread go against the trader);
 * `close_receipt`: everything a decrease hands to the trader (output, secondary output, claimable)
   is at most collateral + credited tokens − charged tokens, or nothing (insolvent close);
-* `open_close_no_profit_partial`: opening a fresh position and closing it at once at the same
-  prices returns at most the deposit + 1 token unit. PARTIAL in one respect only: the inequality
-  `x + y ≤ 1` between the two UNCAPPED impacts (opening on the market before, closing on the market
-  after the opening) is a hypothesis. Missing lemma, by name: `close_impact_is_reverse_on_market` —
-  for a market without virtual inventory for positions, `positionPriceImpact` on the market
-  returned by `increase` with `−size` is `D.rev.priceImpact` for the opening's pool delta `D`
-  (needs the frame facts `cfg`, `viPositions` unchanged and `openInterest` after = before + size
-  through `increaseCore`); then `open_close_impact_le_one` gives the hypothesis.
+* `close_impact_is_reverse_on_market`: whatever `position_price_impact` returns for `+size` on the
+  market before and for `−size` on the market the increase left sums to ≤ 1 (frame of `increaseCore`:
+  configuration unchanged, open interest of the side + size; the virtual inventory for positions
+  only lowers either value);
+* **`open_close_no_profit`**: opening a fresh position and closing it at once at the same prices
+  returns at most the deposit + 1 token unit — no hypothesis on the impacts (round 3; the round-2
+  statement with the explicit link `hxy` is kept as `open_close_no_profit_partial`).
+Guards that remain, each necessary or out of scope: positive cap factor ≤ negative cap factor
+(otherwise F-C10), pnl token = collateral token, `min ≤ max` for the two prices used.
 NOT proved: tokens differing (pnl token ≠ collateral token: the bound then holds in value with a
-slack of two token units, oracle-checked), and with virtual inventory (it only lowers impacts).
+slack of two token units, oracle-checked).
 -/
 namespace Gmx.C10
 open Gmx Gmx.Perp Gmx.Lem
@@ -224,6 +225,29 @@ theorem open_close_no_profit_partial {W U : Nat} {m m1 m2 : Market} {c : PerpCfg
       positionPriceImpact W U m1 p0.isLong (-(S : Int)) true = some (y, by') → x + y ≤ 1) :
     r2.output + r2.secondary + r2.userOut + r2.userSec ≤ ci + 1 :=
   Lem.open_close_bound hinc hfresh hS hsame hdec hcap hidx hcp hxy
+
+
+/-- **the closing's impact is the reverse of the opening's** on the market the increase left:
+the two values `position_price_impact` returns sum to at most one unit of value. -/
+theorem close_impact_is_reverse_on_market {W U : Nat} {m m1 : Market} {c : PerpCfg} {pr : Prices} {p p1 : Pos} {ci S : Nat}
+    {r1 : IncreaseReport} (hcore : increaseCore W U m c pr p ci S = .ok (m1, p1, r1)) {x y : Int} {bx by' : BalanceChange}
+    (hx : positionPriceImpact W U m p.isLong (S : Int) true = some (x, bx))
+    (hy : positionPriceImpact W U m1 p.isLong (-(S : Int)) true = some (y, by')) : x + y ≤ 1 :=
+  Lem.close_impact_is_reverse_on_market hcore hx hy
+
+/-- **open + immediate close is not profitable**, end to end through `increase`, the collateral
+processor and `decrease` (fresh position, same prices, pnl token = collateral token, positive cap
+factor ≤ negative cap factor): everything returned — output, secondary output, claimable — is at
+most the deposit plus ONE token unit, in every market state. -/
+theorem open_close_no_profit {W U : Nat} {m m1 m2 : Market} {c : PerpCfg} {pr : Prices} {p0 p1 p2 : Pos}
+    {ci S : Nat} {r1 : IncreaseReport} {r2 : DecreaseReport} {fl : DecreaseFlags}
+    (hinc : increase W U m c pr p0 ci S = .ok (m1, p1, r1))
+    (hfresh : p0.sizeUsd = 0 ∧ p0.collateral = 0) (hS : S ≠ 0) (hsame : p0.isLong = p0.collLong)
+    (hdec : decrease W U m1 c pr p1 S 0 fl = .ok (m2, p2, r2))
+    (hcap : c.maxPosImpactFactor ≤ c.maxNegImpactFactor)
+    (hidx : pr.index.min ≤ pr.index.max) (hcp : (pr.collateral p0.collLong).min ≤ (pr.collateral p0.collLong).max) :
+    r2.output + r2.secondary + r2.userOut + r2.userSec ≤ ci + 1 :=
+  Lem.open_close_bound_full hinc hfresh hS hsame hdec hcap hidx hcp
 
 /-! ### Non-vacuity -/
 example : PoolDelta.tryNew 64 (1000 * 10 ^ 9) 0 0 (500 * 10 ^ 9) 1 1
